@@ -239,6 +239,27 @@ def run(tier, replay=None):
                     chk.violation("input-consumed:%s" % name.replace(' ', ''), "%s on %s consumed %d bytes of its standard input (a file of %d bytes); the program reads %d"
                                   % (name, iid, pos, len(inp), want), {"p.bin": b, "in.dat": bytes(inp)})
         chk.set("executable_stdin_offsets_checked", npos)
+        # data addresses of 200000 words and more: HexISA gives them no meaning; the property still demands that what hexsim does with them
+        # does not depend on the host's memory.  (Recorded defect of the pinned tree, see known_findings.json: the array is indexed unchecked.)
+        A = asmlib; noob = 0; oobvar = 0
+        for k in (1, 2, 3, 5, 8, 13, 21, 34, 55):
+            prog = [A.ref('BR', 'go'), A.lab('sp'), A.data(150000), A.lab('go'), A.imm('LDAC', 199999 + k), A.imm('LDAI', 1), A.ref('LDBM', 'sp'), A.imm('STAI', 2), A.imm('LDAC', 0),
+                    A.imm('STAI', 3), A.imm('LDAC', 1), A.opr('SVC'), A.imm('LDAC', 0), A.opr('SVC')]
+            wd = os.path.join(d, "oob"); shutil.rmtree(wd, ignore_errors=True); os.makedirs(wd)
+            open(os.path.join(wd, "p.S"), "w").write(asmlib.src_of(prog))
+            vlib.sh([os.path.join(tdir, "hexasm"), "p.S", "-o", "p.bin"], cwd=wd, timeout=60, check=True)
+            seen = set(); diagnosed = True
+            for env in ({}, {}, {"PAD": "y" * 40000}, {"MALLOC_PERTURB_": "85", "PAD2": "z" * 9000}, {"PAD": "q" * 123457}):
+                p = vlib.sh([os.path.join(tdir, "hexsim"), "p.bin"], cwd=wd, env=env, timeout=60)
+                noob += 1
+                seen.add((p.returncode, p.stdout))
+                diagnosed = diagnosed and p.returncode != 0 and p.stdout == b"" and b"rror" in p.stderr
+            if len(seen) > 1:
+                oobvar += 1
+            if len(seen) > 1 or not diagnosed:
+                chk.violation("oob-address:load:%d" % k, "hexsim runs a load from word %d (outside its %d-word memory) on the host's memory: %d different (status, output) pairs in 5 runs of the same image"
+                              % (200000 + k, 200000, len(seen)), {"p.S": asmlib.src_of(prog)})
+        chk.set("out_of_range_address_runs", noob); chk.set("out_of_range_images_with_run_to_run_differences", oobvar)
         history.append({'key': history[0]['key'], 'cfg': 'canary', 'obs': 'CANARY'})
         hf = os.path.join(d, "hist.ndjson"); vlib.write_ndjson(hf, history)
         dout = vlib.tlc_fold("Determinism", "DeterminismF.cfg", [hf], heap="6g")[0][0][0]
